@@ -52,6 +52,8 @@ type faultyReader struct {
 	failAt int
 	chunk  int
 	pulled int
+	zeroAt int // > 0: return (0, nil) once when the position reaches zeroAt-1 (legal for an io.Reader: "nothing happened")
+	zeroed bool
 }
 
 func (r *faultyReader) Read(p []byte) (int, error) {
@@ -60,6 +62,10 @@ func (r *faultyReader) Read(p []byte) (int, error) {
 	}
 	if r.pos >= len(r.data) {
 		return 0, io.EOF
+	}
+	if r.zeroAt > 0 && !r.zeroed && r.pos >= r.zeroAt-1 && len(p) > 0 {
+		r.zeroed = true
+		return 0, nil
 	}
 	n := len(p)
 	if r.chunk > 0 && n > r.chunk {
@@ -71,6 +77,9 @@ func (r *faultyReader) Read(p []byte) (int, error) {
 	}
 	if r.pos+n > lim {
 		n = lim - r.pos
+	}
+	if r.zeroAt > 0 && !r.zeroed && r.pos+n > r.zeroAt-1 && r.zeroAt-1 > r.pos {
+		n = r.zeroAt - 1 - r.pos // stop right before the zero-length read
 	}
 	copy(p, r.data[r.pos:r.pos+n])
 	r.pos += n
@@ -142,6 +151,32 @@ type c06fault struct {
 	data   []byte // what the storage delivers
 	failAt int    // -1 = none
 	chunk  int
+	proto  string // "" = basicnode Any; else one of the kind-restricted basicnode prototypes
+	zeroAt int    // see faultyReader
+}
+
+var c06Protos = []string{"map", "list", "string", "bytes", "int", "float", "bool", "link"}
+
+func c06Proto(name string) datamodel.NodePrototype {
+	switch name {
+	case "map":
+		return basicnode.Prototype.Map
+	case "list":
+		return basicnode.Prototype.List
+	case "string":
+		return basicnode.Prototype.String
+	case "bytes":
+		return basicnode.Prototype.Bytes
+	case "int":
+		return basicnode.Prototype.Int
+	case "float":
+		return basicnode.Prototype.Float
+	case "bool":
+		return basicnode.Prototype.Bool
+	case "link":
+		return basicnode.Prototype.Link
+	}
+	return basicnode.Prototype.Any
 }
 
 func tfs(b bool) string {
@@ -168,8 +203,9 @@ func c06Block(c *core.Ctx, reg multicodec.Registry, lnk cidlink.Link, block []by
 	for _, f := range faults {
 		f := f
 		mk := func() *faultyReader {
-			return &faultyReader{data: f.data, failAt: f.failAt, chunk: f.chunk}
+			return &faultyReader{data: f.data, failAt: f.failAt, chunk: f.chunk, zeroAt: f.zeroAt}
 		}
+		proto := c06Proto(f.proto)
 		// measure the decoder on the same stream
 		mr := mk()
 		decErr := func() (err error) {
@@ -178,7 +214,7 @@ func c06Block(c *core.Ctx, reg multicodec.Registry, lnk cidlink.Link, block []by
 					err = fmt.Errorf("panic %v", r)
 				}
 			}()
-			return decoder(basicnode.Prototype.Any.NewBuilder(), mr)
+			return decoder(proto.NewBuilder(), mr)
 		}()
 		deliverable := f.data
 		if f.failAt >= 0 && f.failAt < len(deliverable) {
@@ -198,6 +234,22 @@ func c06Block(c *core.Ctx, reg multicodec.Registry, lnk cidlink.Link, block []by
 		lsys.StorageReadOpener = func(linking.LinkContext, datamodel.Link) (io.Reader, error) {
 			rd = mk()
 			return rd, nil
+		}
+		// O: a node that is returned must be the decoding of the bytes that were hashed (not of some other stream)
+		checkNode := func(fn string, n datamodel.Node) {
+			if n == nil {
+				return
+			}
+			nb := proto.NewBuilder()
+			if err := decoder(nb, bytes.NewReader(f.data)); err != nil {
+				c.Fail("C06/node-from-undecodable-block", core.Replay{Kind: "oracle", Case: c06Case(lnk, f, fn), Impl: termOf(n), Expected: err.Error(),
+					Detail: fn + " returned a node although the delivered block does not decode"})
+				return
+			}
+			if got, want := termOf(n), termOf(nb.Build()); got != want {
+				c.Fail("C06/node-not-from-hashed-bytes", core.Replay{Kind: "oracle", Case: c06Case(lnk, f, fn), Impl: got, Expected: want,
+					Detail: fn + " returned a node that is not the decoding of the bytes whose hash was verified (fault " + f.kind + ")"})
+			}
 		}
 		run := func(fn string, line string, call func() (bool, []byte, error)) {
 			var o obs
@@ -233,12 +285,18 @@ func c06Block(c *core.Ctx, reg multicodec.Registry, lnk cidlink.Link, block []by
 			lines = append(lines, line)
 		}
 		run("Load", fillLine, func() (bool, []byte, error) {
-			n, err := lsys.Load(linking.LinkContext{}, lnk, basicnode.Prototype.Any)
+			n, err := lsys.Load(linking.LinkContext{}, lnk, proto)
+			if err == nil {
+				checkNode("Load", n)
+			}
 			return n != nil, nil, err
 		})
 		run("Fill", fillLine, func() (bool, []byte, error) {
-			nb := basicnode.Prototype.Any.NewBuilder()
+			nb := proto.NewBuilder()
 			err := lsys.Fill(linking.LinkContext{}, lnk, nb)
+			if err == nil {
+				checkNode("Fill", nb.Build())
+			}
 			return false, nil, err
 		})
 		run("LoadRaw", rawLine, func() (bool, []byte, error) {
@@ -250,7 +308,7 @@ func c06Block(c *core.Ctx, reg multicodec.Registry, lnk cidlink.Link, block []by
 		})
 		// LoadPlusRaw = LoadRaw then decode the buffer: predicted by loadraw, then by the decoder on the whole block
 		run("LoadPlusRaw", rawLine, func() (bool, []byte, error) {
-			n, b, err := lsys.LoadPlusRaw(linking.LinkContext{}, lnk, basicnode.Prototype.Any)
+			n, b, err := lsys.LoadPlusRaw(linking.LinkContext{}, lnk, proto)
 			if err != nil {
 				// bytes may legitimately accompany a *decode* error (documented: "block, err"), but only verified ones
 				if b != nil && !hashesTo(lnk, b) {
@@ -258,6 +316,7 @@ func c06Block(c *core.Ctx, reg multicodec.Registry, lnk cidlink.Link, block []by
 				}
 				return n != nil, nil, err
 			}
+			checkNode("LoadPlusRaw", n)
 			return n != nil, b, nil
 		})
 		_ = block
@@ -291,7 +350,7 @@ func c06Block(c *core.Ctx, reg multicodec.Registry, lnk cidlink.Link, block []by
 		want := outs[i]
 		if o.fn == "LoadPlusRaw" && want == "ok" {
 			// after a verified LoadRaw the decoder runs on the whole buffer
-			if err := decoder(basicnode.Prototype.Any.NewBuilder(), bytes.NewBuffer(o.f.data)); err != nil {
+			if err := decoder(c06Proto(o.f.proto).NewBuilder(), bytes.NewBuffer(o.f.data)); err != nil {
 				want = "decodeErr"
 			}
 		}
@@ -303,7 +362,14 @@ func c06Block(c *core.Ctx, reg multicodec.Registry, lnk cidlink.Link, block []by
 }
 
 func c06Case(lnk cidlink.Link, f c06fault, fn string) string {
-	return fmt.Sprintf("c06.load %s %s %s %d %d %s", fn, hex.EncodeToString(lnk.Cid.Bytes()), hexArg(f.data), f.failAt, f.chunk, f.kind)
+	k := f.kind
+	if f.proto != "" || f.zeroAt > 0 {
+		k += "@" + f.proto
+	}
+	if f.zeroAt > 0 {
+		k += fmt.Sprintf("@%d", f.zeroAt)
+	}
+	return fmt.Sprintf("c06.load %s %s %s %d %d %s", fn, hex.EncodeToString(lnk.Cid.Bytes()), hexArg(f.data), f.failAt, f.chunk, k)
 }
 
 func c06Faults(block []byte, r *core.Rand, exhaustive bool) []c06fault {
@@ -347,6 +413,23 @@ func c06Faults(block []byte, r *core.Rand, exhaustive bool) []c06fault {
 		b[r.Intn(len(b))] ^= 0x10
 		fs = append(fs, c06fault{kind: "bitflip+read-error", data: b, failAt: r.Intn(len(b) + 1)})
 		fs = append(fs, c06fault{kind: "bitflip+chunked", data: b, failAt: -1, chunk: 1})
+	}
+	// a reader that reports "nothing happened" (0, nil) once, at some offset, on intact and on corrupted streams
+	for n := 0; n < 4 && len(block) > 0; n++ {
+		fs = append(fs, c06fault{kind: "zero-read", data: block, failAt: -1, chunk: r.Intn(3), zeroAt: 1 + r.Intn(len(block))})
+		b := append([]byte{}, block...)
+		b[r.Intn(len(b))] ^= 1 << uint(r.Intn(8))
+		fs = append(fs, c06fault{kind: "bitflip+zero-read", data: b, failAt: -1, zeroAt: 1 + r.Intn(len(block))})
+	}
+	// the same faults through kind-restricted prototypes: the assembler may refuse the data (wrong kind) at any point,
+	// and the hash verdict must still come first
+	n0 := len(fs)
+	for i := 0; i < n0; i++ {
+		if exhaustive || r.Chance(1, 2) {
+			g := fs[i]
+			g.proto = c06Protos[r.Intn(len(c06Protos))]
+			fs = append(fs, g)
+		}
 	}
 	return fs
 }
@@ -513,5 +596,13 @@ func replayC06(c *core.Ctx, rp core.Replay) error {
 	var failAt, chunk int
 	fmt.Sscan(f[4], &failAt)
 	fmt.Sscan(f[5], &chunk)
-	return c06Block(c, testRegistry(), cidlink.Link{Cid: ci}, nil, []c06fault{{kind: f[6], data: data, failAt: failAt, chunk: chunk}})
+	kp := strings.Split(f[6], "@")
+	flt := c06fault{kind: kp[0], data: data, failAt: failAt, chunk: chunk}
+	if len(kp) > 1 {
+		flt.proto = kp[1]
+	}
+	if len(kp) > 2 {
+		fmt.Sscan(kp[2], &flt.zeroAt)
+	}
+	return c06Block(c, testRegistry(), cidlink.Link{Cid: ci}, nil, []c06fault{flt})
 }
